@@ -617,7 +617,7 @@ class ExprBuilder:
                     r = self.ret_expr(cb, sub, depth + 1, seen)
                     if r is not None:
                         return r
-            return ("call", nm, tuple(args))
+            return ("call", nm, tuple(args), ty)
         rv = d[3]["rv"]
         k = rv["k"]
         if k == "use":
